@@ -47,7 +47,7 @@ Fixpoint tree_eqb (a b : tree) : bool :=
 Fixpoint tree_size (t : tree) : nat :=
   let 'T _ _ _ ks := t in S (fold_right (fun k n => tree_size k + n) 0 ks).
 
-(* (*Node).InnerText: the concatenated text of the subtree, attributes excluded. *)
+(* Node.InnerText: the concatenated text of the subtree, attributes excluded. *)
 Fixpoint inner_text (t : tree) : bytes :=
   let 'T ty d _ ks := t in
   match ty with
